@@ -7,7 +7,7 @@
 (* x MkdirAll in the middle of a mixed batch), then a seeded sample.           *)
 EXTENDS FileOpsDefs, TLC, Json
 
-States == { [a |-> fs.a, b |-> fs.b, sub |-> fs.sub, c |-> fs.c, n |-> 0] : fs \in { f \in FSStates : WellFormed(f) } }
+States == { [a |-> fs.a, b |-> fs.b, sub |-> fs.sub, c |-> fs.c, n |-> 0, ld |-> 0] : fs \in { f \in FSStates : WellFormed(f) } }
 OpenItems == { [p |-> p, idx |-> 0, mode |-> m, mk |-> k] : p \in OpenPaths, m \in Modes, k \in BOOLEAN }
 (* sustained large batches on one long-lived environment: `files` numbered files, `rounds`    *)
 (* consecutive batches of `batch` items over them (plus a few absent indices), every round    *)
@@ -16,7 +16,7 @@ Sustained == { [files |-> 250, batch |-> 250, rounds |-> 100], [files |-> 253, b
                [files |-> 250, batch |-> 200, rounds |-> 300], [files |-> 253, batch |-> 253, rounds |-> 300],
                [files |-> 120, batch |-> 100, rounds |-> 300] }
 NumberedItems == { [p |-> "n", idx |-> i, mode |-> m, mk |-> FALSE] : i \in 1..273, m \in {"r", "rw"} }
-LinkItems == { [link |-> l, to |-> t] : l \in LinkPaths, t \in LinkTargets }
+LinkItems == { [link |-> l, to |-> t, idx |-> 0, len |-> 0, what |-> ""] : l \in LinkPaths, t \in LinkTargets }
 Shapes == { <<"open">>, <<"open", "open">>, <<"symlink", "open">>, <<"open", "delete", "open">>,
             <<"delete", "symlink", "open">>, <<"open", "symlink", "delete">>, <<"symlink", "symlink">>,
             <<"delete", "delete", "open">> }
@@ -28,6 +28,16 @@ ASSUME ndJsonSerialize("linkitems.ndjson", SetToSeq(LinkItems))
 ASSUME ndJsonSerialize("deletepaths.ndjson", SetToSeq({ [p |-> p] : p \in DeletePaths }))
 ASSUME ndJsonSerialize("shapes.ndjson", SetToSeq({ [shape |-> s] : s \in Shapes }))
 ASSUME ndJsonSerialize("long.ndjson", SetToSeq({ [n |-> n] : n \in LongBatches }))
+(* long legal paths: failing (and a few succeeding) items whose error texts add up to a budget   *)
+(* BELOW the 32 KiB frame: the reply must still be answered item by item                        *)
+LongOpenItems == { [p |-> "L", idx |-> i, len |-> n, what |-> w, mode |-> m, mk |-> FALSE] :
+                     i \in 1..40, n \in 1..3, w \in {"dir", "miss"}, m \in Modes }
+LongLinkItems == { [link |-> "L", to |-> "target", idx |-> i, len |-> n, what |-> w] :
+                     i \in 1..40, n \in 1..3, w \in {"dir", "miss"} }
+ErrBudgetsKiB == { 8, 16, 24, 30 }
+ASSUME ndJsonSerialize("longopen.ndjson", SetToSeq(LongOpenItems))
+ASSUME ndJsonSerialize("longlink.ndjson", SetToSeq(LongLinkItems))
+ASSUME ndJsonSerialize("budgets.ndjson", SetToSeq({ [kib |-> b, op |-> o, len |-> n] : b \in ErrBudgetsKiB, o \in {"open", "symlink"}, n \in 1..3 }))
 ASSUME ndJsonSerialize("sustained.ndjson", SetToSeq(Sustained))
 ASSUME ndJsonSerialize("numbereditems.ndjson", SetToSeq(NumberedItems))
 ASSUME PrintT(<<"generated", Cardinality(States), Cardinality(OpenItems), Cardinality(LinkItems)>>)
